@@ -117,7 +117,7 @@ Qed.
 Theorem layer_change_sound : forall L L' ax ay aw ah old new,
   differs L L' (ax, ay, aw, ah) -> from_layer L (ax, ay, aw, ah) = Ok old -> from_layer L' (ax, ay, aw, ah) = Ok new ->
   leqv (l_restore L' ax ay old) L /\ leqv (l_restore L ax ay new) L'.
-Proof. intros. split; [eapply frame_undo|eapply frame_redo]; eauto. Qed.
+Proof. exact frame_sound. Qed.
 
 (* ALL area operations at once: whatever the mutation computes, as long as it stays inside the area (everything that
    writes through Layer::set_char at positions of the area does) *)
@@ -180,10 +180,8 @@ Proof. exact swap_old_loses_char_refuted. Qed.
 (* ================================================================================================================
    Non-vacuity: a concrete history (the DESIGN.md probe, 6x4) satisfies the premises of undo_redo_history, has three
    undo steps, changes the document, and the generic frame is instantiated by a mutation that does change cells. *)
-Definition ex_doc : E := mkEs (mkE 6 4 [plain_layer 6 4 false] 0 None false 0 0) [] [].
-Definition ex_tab : N -> option (N -> N) := fun _ => Some (fun ch => if (ch =? 81)%N then 79%N else ch).
-Definition ex_hist : list (E -> res E) :=
-  [api_set_char 5 3 cQ; api_set_char 0 0 cQ; api_set_layer_size 0 3 2; api_flip_x ex_tab; api_center; api_add_new_layer 0].
+(* ex_doc, ex_tab, ex_hist: Proofs/OldCodeProofs.v (a fresh 6x4 one-layer document; set_char (5,3) 'Q'; set_char (0,0) 'Q';
+   set_layer_size 0 (3,2); flip_x with a table mapping 'Q' to 'O'; center; add_new_layer 0) *)
 
 Example ex_hist_modelled : Forall modelled ex_hist.
 Proof.
